@@ -25,7 +25,7 @@ MAX_STATES = 5000
 
 def scope_text(tier):
     return ('SEL-q' if tier == 'quick' else 'SEL-t + (P<=3,K<=2,I<=3)') + \
-        ' restricted to specs with >= 1 incompatibility pair; all orders; both encoders at processor level'
+        ' restricted to specs with >= 1 incompatibility pair + INC family (256 specs: nested choice below an option, all edge subsets, 4 pairs); all orders; both encoders at processor level'
 
 
 def cases(tier, seed):
@@ -34,6 +34,13 @@ def cases(tier, seed):
         if spec['incompat']:
             seen.add(en.spec_id(spec))
             yield dict(spec=spec)
+    from vf import families
+    for spec in families.unr(tier):      # incompatibility with a node that cannot be derived at all
+        yield dict(spec=spec)
+    for spec in families.inc2(tier):     # one node in two incompatibility constraints, derived partners
+        yield dict(spec=spec)
+    for spec in families.inc(tier):      # necessary derivers below an option with a nested choice
+        yield dict(spec=spec)
     if tier != 'quick':
         for spec in en.sel_specs(dict(P=3, K=2, M=2, E=1, I=3, S=1)):
             if len(spec['incompat']) >= 2 and en.spec_id(spec) not in seen:
